@@ -1,27 +1,27 @@
 (* C02, RoundedRectangle part: everything drawn lies in the styled bounding box; transparent styles draw nothing.
-   Statements only; proofs are in Proofs/Rrect.v. (No class exclusion needed.) *)
-From EG Require Import Base.Prelude Model.Geometry Model.Style Model.Rrect Proofs.Geometry Proofs.Rrect.
+   Statements only; proofs are in Proofs/Rrect.v. (No class exclusion needed.)  Domain styled_dom: see C06_rrect.v. *)
+From EG Require Import Base.Prelude Model.Geometry Model.Style Model.Rrect Proofs.Geometry Proofs.Curvefacts Proofs.Rrect Proofs.Rrect2.
 
 Theorem C02_rrect_drawn_in_bbox : forall r st bb p,
-  styled_ok r st -> rect_ok (rr_rect r) -> 0 <= stroke_width st <= bound ->
+  styled_dom r st -> rect_ok (rr_rect r) -> 0 <= stroke_width st <= bound ->
   pix_get (writes_of_calls bb (rr_draw r st)) p <> None -> contains (rr_styled_bounding_box r st) p = true.
-Proof. exact rr_drawn_in_bbox. Qed.
+Proof. intros; eapply rr_drawn_in_bbox; eauto using rr_dom_ok, styled_dom_ok. Qed.
 
 Theorem C02_rrect_pixels_in_bbox : forall r st bb p,
-  styled_ok r st ->
+  styled_dom r st ->
   pix_get (writes_of_pixels bb (rr_pixels r st)) p <> None -> contains (rr_styled_bounding_box r st) p = true.
-Proof. exact rr_pixels_in_bbox. Qed.
+Proof. intros; eapply rr_pixels_in_bbox; eauto using rr_dom_ok, styled_dom_ok. Qed.
 
 Theorem C02_rrect_transparent_draws_nothing : forall r st,
   is_transparent st = true -> rr_draw r st = [].
-Proof. exact rr_transparent_draw. Qed.
+Proof. intros; eapply rr_transparent_draw; eauto using rr_dom_ok, styled_dom_ok. Qed.
 
 Theorem C02_rrect_transparent_pixels_nothing : forall r st bb p,
-  styled_ok r st -> is_transparent st = true -> pix_get (writes_of_pixels bb (rr_pixels r st)) p = None.
-Proof. exact rr_transparent_pixels. Qed.
+  styled_dom r st -> is_transparent st = true -> pix_get (writes_of_pixels bb (rr_pixels r st)) p = None.
+Proof. intros; eapply rr_transparent_pixels; eauto using rr_dom_ok, styled_dom_ok. Qed.
 
 Example C02_rrect_nonvacuous :
   let r := rr_with_equal_corners (R (P 2 3) (S 10 8)) (S 3 3) in
   let st := Style (Some 5) (Some 7) 4 Center Solid in
-  rr_styled_bounding_box r st = R (P 0 1) (S 14 12) /\ length (rr_draw r st) = 20%nat.
-Proof. vm_compute. repeat split; reflexivity. Qed.
+  styled_dom r st /\ rr_styled_bounding_box r st = R (P 0 1) (S 14 12) /\ length (rr_draw r st) = 20%nat.
+Proof. cbv zeta. split; [split; apply rr_dom_b; vm_compute; reflexivity|]. vm_compute. repeat split; reflexivity. Qed.
